@@ -51,6 +51,7 @@ type loopCtx struct {
 }
 
 type FuncExec struct {
+	params   []*types.Var        // receiver and parameters, in declaration order
 	addrTaken map[*types.Var]bool // struct-typed locals whose address is taken (may be aliased)
 	callSeq  int               // numbers the call sites met so far (provenance tags)
 	selfTerm string            // literals: the constant naming the closure value being executed
